@@ -21,7 +21,7 @@ import ast
 from .. import rx
 from ..domains import AbsStr, AbsInt, Cond, _freeze
 from ..interp import (AbstractValue, Interp, Oracle, Obj, Unknown, enumerate_paths, Raised, is_abstract, RxVal,
-                      MISSING, GenVal)
+                      MISSING, GenVal, PathLimit, LoopTruncated)
 from ..model import AnalysisError, ClassInfo, loc, walk_function, PKG
 from ..report import load_audit
 from .. import tokens as tk
@@ -306,11 +306,32 @@ def rule_scalar_range(ctx, rep, facts):
     if not ok:
         rep.find(rule, 'block_token.SetextHeading.level', 'range', 'SetextHeading.level takes values %s, not only 1 and 2'
                  % [repr(v) for v in vals], loc(model.unit_of(sh), sh.node))
+    # the setext level is read off the underline as written: '=' is level 1, '-' level 2, whatever surrounds it
+    # (up to three spaces before, any number of spaces after: CommonMark 4.3)
+    rep.instance(rule)
+    ti = model.func('span_token.tokenize_inner')
+    for underline, want in (('===\n', 1), ('=\n', 1), ('---\n', 2), ('-\n', 2), ('===   \n', 1), ('---  \n', 2), ('   ===\n', 1),
+                            ('  -\n', 2), ('=== \t\n', 1)):
+        it = Interp(model)
+        it.reset_run(Oracle())
+        it.func_hooks[ti.qualname] = lambda interp, fi, args, kwargs: []
+        try:
+            o = it.construct(sh, [['Title\n', underline]], {})
+            got = o.attrs.get('level', MISSING)
+        except Raised as e:
+            got = 'raises %s' % e.exc.kind
+        ok = got == want and not isinstance(got, bool)
+        rep.obligation(rule, ok, {'setext underline': underline, 'level': repr(got), 'expected': want})
+        if not ok:
+            rep.find(rule, 'block_token.SetextHeading.__init__', 'level(%s)' % underline.strip()[:1],
+                     'a setext heading underlined with %r gets level %r; the underline character makes it level %d'
+                     % (underline, got, want), loc(model.unit_of(sh), sh.node), witness='Title\n' + underline)
     # List.start from the first child's leader
     lst = model.cls('block_token.List')
     li = model.cls('block_token.ListItem')
     rep.instance(rule)
-    for leaders, want in ((['7.', '9.'], 7), (['3)', '1)'], 3), (['-', '-'], None), (['*'], None)):
+    for leaders, want in ((['7.', '9.'], 7), (['3)', '1)'], 3), (['-', '-'], None), (['*'], None), (['10.', '11.'], 10),
+                          (['0.'], 0), (['123456789)'], 123456789), (['007.'], 7), (['+'], None)):
         it = Interp(model)
         it.reset_run(Oracle())
         queue = list(leaders)
@@ -326,6 +347,63 @@ def rule_scalar_range(ctx, rep, facts):
             rep.find(rule, 'block_token.List.__init__', 'start(%s)' % ('ordered' if want else 'bullet'),
                      'a list whose item markers are %s gets start=%r; expected %r (number of the first marker, None for bullets)'
                      % (leaders, got, want), loc(model.unit_of(lst), lst.node))
+
+
+def rule_new_fresh(ctx, rep):
+    """Constructing a token yields a token of its own: a __new__ of a token class, interpreted twice over an
+    abstract argument on every path, returns a new object each time (an object handed out twice would be listed
+    by two parents) and either always a token or - the documented case of link reference definitions - never."""
+    model = ctx.model
+    rule = 'R-NEW-FRESH'
+    rep.rule(rule, 'a token class\'s __new__ returns a fresh object on every call, and a token on all paths or on none')
+    base = model.cls('token.Token')
+    n = 0
+    for cls in sorted(model.classes.values(), key=lambda c: c.qualname):
+        if not cls.is_subclass_of(base):
+            continue
+        hit = cls.lookup('__new__')
+        if hit is None or hit[0] != 'method':
+            continue
+        fi = hit[1]
+        rep.instance(rule)
+        n += 1
+        outs = []
+
+        def runner(oracle, cls=cls, fi=fi):
+            it = Interp(model, loop_bound=2)
+            it.reset_run(oracle)
+            nargs = max(0, len(fi.params()) - 1)
+            try:
+                a = it.call_function(fi, [cls] + [Unknown('arg%d' % i) for i in range(nargs)], {})
+                b = it.call_function(fi, [cls] + [Unknown('arg%d' % i) for i in range(nargs)], {})
+            except (Raised, LoopTruncated):
+                return None
+            return a, b
+        try:
+            for trace, res in enumerate_paths(runner, 200):
+                if res is not None:
+                    outs.append(res)
+        except PathLimit:
+            pass
+        kinds = set()
+        shared = False
+        for a, b in outs:
+            for x in (a, b):
+                kinds.add('none' if x is None else 'token' if isinstance(x, Obj) else 'other')
+            if isinstance(a, Obj) and a is b:
+                shared = True
+        ok = not shared and not ({'none', 'token'} <= kinds)
+        rep.obligation(rule, ok, {'class': cls.short, 'results': sorted(kinds), 'same object twice': shared})
+        if shared:
+            rep.find(rule, fi.short, 'shared-instance:%s' % cls.name,
+                     '%s.__new__ can return the same object for two constructions: the token is then listed by two parents (or '
+                     'twice by one), its parent link names only the last, and a walk of the tree meets it more than once'
+                     % cls.short, loc(model.unit_of(fi), fi.node))
+        elif not ok:
+            rep.find(rule, fi.short, 'sometimes-none:%s' % cls.name,
+                     '%s.__new__ returns a token on some paths and None on others: the block it was built from silently '
+                     'disappears from the tree' % cls.short, loc(model.unit_of(fi), fi.node))
+    rep.floor(rule, n, 1)
 
 
 def rule_repr_attrs(ctx, rep, facts):
@@ -472,6 +550,7 @@ def run(ctx):
     rule_parent_stamp(ctx, rep)
     rule_child_kind(ctx, rep, facts)
     rule_scalar_range(ctx, rep, facts)
+    rule_new_fresh(ctx, rep)
     rule_repr_attrs(ctx, rep, facts)
     rule_traverse(ctx, rep)
     rep.extra['constructor_paths'] = facts.paths
